@@ -1,6 +1,6 @@
 (* dispatch : list Z -> list Z  -- the single entry point of the extracted model *)
 From Coq Require Import ZArith List Bool.
-From GV.Model Require Export Wire Wire2 Repr.
+From GV.Model Require Export Wire Wire2 Repr Gym.
 Import ListNotations.
 Open Scope Z_scope.
 
@@ -87,6 +87,45 @@ Definition op_contains (l : list Z) : list Z :=
   | _ => undecodable
   end.
 
+
+(* the gym / outer / inner machine (Gym.v) *)
+Definition pname : parser (option repr_kind) :=
+  do x <- pZ; match x with 0 => pret (Some RDefault) | 1 => pret (Some RNoOverlap) | 2 => pret (Some RCompact) | 3 => pret None | _ => pfail end.
+Definition pgop : parser gop :=
+  do tag <- pZ;
+  match tag with
+  | 0 => do op <- piop; pret (IOp op)
+  | 1 => pret OReset | 2 => do a <- paction; pret (OStep a) | 3 => pret OObs | 4 => pret OState
+  | 5 => pret GReset | 6 => do i <- pZ; pret (GStep i) | 7 => pret GObs | 8 => pret GState
+  | 9 => do n <- pname; pret (GSetSRep n) | 10 => do n <- pname; pret (GSetORep n)
+  | 11 => pret WReset | 12 => do i <- pZ; pret (WStep i) | 13 => pret WObs
+  | _ => pfail
+  end.
+Definition eorepr (r : obs_repr) : list Z := elist (elist (elist (fun z => [z]))) (or_grid r) ++ elist (elist (fun z => [z])) (or_agent_id r) ++ or_item r.
+Definition esrepr (r : state_repr) : list Z :=
+  elist (elist (elist (fun z => [z]))) (sr_grid r) ++ elist (elist (fun z => [z])) (sr_agent_id r) ++
+  (let '(yy, xx, oh) := sr_agent r in [fst yy; snd yy; fst xx; snd xx] ++ oh) ++ sr_item r.
+Definition egout (o : gout) : list Z :=
+  match o with
+  | GOUnit => [0]
+  | GOInner io => 1 :: eiout io
+  | GOObs r => 2 :: eorepr r
+  | GOState r => 3 :: esrepr r
+  | GOStep r rw t => 4 :: eorepr r ++ erv rw ++ ebool t
+  | WOStep sr rw t r => 5 :: esrepr sr ++ erv rw ++ ebool t ++ eorepr r
+  end.
+Definition initial_rep {A} (r : res A) : option A := match r with Ok a => Some a | Err _ => None end.
+Definition op_gym (l : list Z) : list Z :=
+  run (do e <- pgridworld; do debug <- pbool; do sn <- pname; do on <- pname; do ops <- plist pgop; do tape <- ptape; pret (e, debug, sn, on, ops, tape))
+      (fun '(e, debug, sn, on, ops, tape) =>
+         let g0 := mkGE ie_init (initial_rep (srep_of sn (gw_sspace e))) (initial_rep (orep_of on (gw_ospace e))) in
+         eoutcome (elist (eres egout)) (interp (grun e debug g0 ops) tape)) l.
+(* the bounds advertised for a representation of a space: per-object upper bounds *)
+Definition op_advertised (l : list Z) : list Z :=
+  run (do is_state <- pbool; do n <- pname; do h <- pZ; do w <- pZ; do ts <- plist pZ; do cs <- plist pZ; pret (is_state, n, h, w, ts, cs))
+      (fun '(is_state, n, h, w, ts, cs) =>
+         eres advertised (if is_state : bool then srep_of n (mkSS h w ts cs) else orep_of n (mkOS h w ts cs))) l.
+
 Definition dispatch (l : list Z) : list Z :=
   match l with
   | 1 :: r => op_geometry r
@@ -103,5 +142,7 @@ Definition dispatch (l : list Z) : list Z :=
   | 12 :: r => op_fstep r
   | 13 :: r => op_fobs r
   | 14 :: r => op_repr r
+  | 15 :: r => op_gym r
+  | 16 :: r => op_advertised r
   | _ => undecodable
   end.
